@@ -601,6 +601,11 @@ func (w *World) checkColdIterations(root *Node) error {
 	regs := w.led.Snapshot()
 	id := rootID(root)
 
+	// (a0) every full-enumeration flavour alone on a storage that has loaded nothing / a PRNG half before
+	if err := w.checkColdFlavours(root, regs); err != nil {
+		return err
+	}
+
 	// (a) partial load
 	for round := 0; round < 3; round++ {
 		ps := newStorage(NewLedgerFrom(regs, nil))
@@ -1288,7 +1293,7 @@ func init() {
 			"then a mutable iteration overwrites the current element / grows the nested container just yielded and must still yield each pre-mutation element once, then on cold copies partially loaded containers must yield an in-order subsequence and bulk pop the exact reverse. " +
 			"non-trivial = container with >=3 slabs, partial loads exercised, collision groups present for collision profiles; distinct by hash(config, operation list)",
 		Assumptions: []string{"inserting/removing during mutable iteration is documented as unsupported and not generated", "exploration, not proof"},
-		Mandatory:   []string{"iterations-checked", "ranges-checked", "invalid-ranges-rejected", "mutating-iterations", "overwrites-during-iteration", "child-mutations-during-iteration", "partial-load-iterations", "reverse-pops-checked"},
+		Mandatory:   []string{"iterations-checked", "ranges-checked", "invalid-ranges-rejected", "mutating-iterations", "overwrites-during-iteration", "child-mutations-during-iteration", "partial-load-iterations", "cold-single-flavour-iterations", "reverse-pops-checked"},
 	})
 	register(&Prop{
 		ID: "C18", Level: "fault_enumeration", Run: runC18, Cases: cases(16*30, 16*150), MinNonTrivial: 8,
